@@ -204,9 +204,6 @@ func main() {
 				stepsTotal += r.Steps
 				fwdTotal += r.Forwards
 				overlapTotal += r.Overlapped
-				overlapTotal += r.Overlapped
-				overlapTotal += r.Overlapped
-				overlapTotal += r.Overlapped
 				for k, v := range r.Leads {
 					leads[k] += v
 				}
